@@ -343,7 +343,13 @@ func (w *world) monitors() {
 			hit, _ = g.IntersectQuad(dagaz.NewRayFromProtobuf(&dagazpb.Ray{From: point(c.x, c.y+1, c.z), To: point(c.x, c.y-1, c.z)}))
 		})
 		if ok && hit == nil {
-			w.violation("centre-ray-misses", "plane=", w.ids[q])
+			// a plane so thin that the square of its normal's length underflows float32 keeps an unnormalised,
+			// denormal normal: known finding F19, kept apart from any other miss
+			if n := e.x * e.z; n*n == 0 {
+				w.violation("degenerate-plane-not-hit", fmt.Sprintf("plane=%d extents=%g,%g", w.ids[q], e.x, e.z))
+			} else {
+				w.violation("centre-ray-misses", "plane=", w.ids[q])
+			}
 		}
 	}
 	// a region query covering the grid returns every stored plane exactly once
